@@ -2,7 +2,7 @@ SPECIFICATION TSpec
 CONSTANTS
  MaxGen = 80
  MaxSteps = 100000
- Ctx = {"c1", "c2", "c3"}
+ Ctx = {"c1", "c2", "c3", "c4"}
  Name = {"f", "g", "h"}
  FlagSets = {{}}
  SubSet = {"dm"}
@@ -12,6 +12,6 @@ CONSTANTS
  MaxDefs = 2
  Vias = {"exec", "run"}
  Rush = TRUE
- Acts = {"define", "del", "rebind", "push", "pop", "clear", "reload", "close", "unload", "boot", "fire", "set", "call", "out"}
+ Acts = {"define", "del", "rebind", "push", "pop", "clear", "reload", "close", "unload", "boot", "import", "fail", "fire", "set", "call", "out"}
 INVARIANT Report
 CHECK_DEADLOCK FALSE
